@@ -253,10 +253,7 @@ impl TryFrom<ffi::PartialDate<'_>> for temporal_rs::partial::PartialDate {
         let month_code = if other.month_code.is_empty() {
             None
         } else {
-            Some(
-                MonthCode::try_from_utf8(other.month_code.into())
-                    .map_err(|_| TemporalError::syntax())?,
-            )
+            Some(MonthCode::try_from_utf8(other.month_code.into())?)
         };
 
         let era = if other.era.is_empty() {
